@@ -105,9 +105,20 @@ type TermStore struct {
 }
 
 type InstAxiom struct {
-	Vars []*Term
-	Body *Term
-	Pat  *Term
+	Vars  []*Term
+	Body  *Term
+	Pat   *Term
+	Limit int // >0: instantiate only during the first Limit rounds (bounded unfolding of recursive definitions)
+}
+
+// SetInstAxiom (re)registers an instantiable axiom, e.g. the defining equation of a specification function.
+func SetInstAxiom(symbol string, vars []*Term, pat, body *Term, limit int) {
+	symbol = smtName(symbol)
+	if _, ok := TS.axioms[symbol]; !ok {
+		TS.axiomOrder = append(TS.axiomOrder, symbol)
+	}
+	TS.instAxioms[symbol] = &InstAxiom{Vars: vars, Body: body, Pat: pat, Limit: limit}
+	TS.axioms[symbol] = Forall(vars, body, []*Term{pat})
 }
 
 type RecFun struct {
@@ -818,7 +829,7 @@ func printTerm(sb *strings.Builder, t *Term, named map[int]string) {
 		if len(t.Pats) > 0 {
 			sb.WriteString("(! ")
 		}
-		printTerm(sb, t.Args[0], named)
+		printLet(sb, t.Args[0], named)
 		if len(t.Pats) > 0 {
 			for _, p := range t.Pats {
 				sb.WriteString(" :pattern (")
@@ -842,6 +853,58 @@ func printTerm(sb *strings.Builder, t *Term, named map[int]string) {
 			sb.WriteString(" ")
 			printTerm(sb, a, named)
 		}
+		sb.WriteString(")")
+	}
+}
+
+// printLet prints t with let-bindings for the subterms shared inside t (used for quantifier bodies and recursive
+// function bodies, whose shared subterms mention bound variables and cannot be hoisted to top-level definitions).
+// Inner quantifiers are treated as units here; they bind their own shared subterms when printed.
+func printLet(sb *strings.Builder, t *Term, named map[int]string) {
+	refs := map[int]int{}
+	var order []*Term
+	var visit func(x *Term)
+	visit = func(x *Term) {
+		if named != nil {
+			if _, ok := named[x.id]; ok {
+				return
+			}
+		}
+		refs[x.id]++
+		if refs[x.id] > 1 || len(x.Args) == 0 {
+			return
+		}
+		if x.Op != "forall" && x.Op != "exists" {
+			for _, a := range x.Args {
+				visit(a)
+			}
+		}
+		order = append(order, x)
+	}
+	visit(t)
+	var shared []*Term
+	for _, x := range order {
+		if refs[x.id] > 1 && len(x.Args) > 0 && x != t && x.Op != "constarr" {
+			shared = append(shared, x)
+		}
+	}
+	if len(shared) == 0 {
+		printTerm(sb, t, named)
+		return
+	}
+	local := map[int]string{}
+	for k, v := range named {
+		local[k] = v
+	}
+	for _, x := range shared {
+		name := fmt.Sprintf("l%d", x.id)
+		fmt.Fprintf(sb, "(let ((%s ", name)
+		printTerm(sb, x, local)
+		sb.WriteString(")) ")
+		local[x.id] = name
+	}
+	printTerm(sb, t, local)
+	for range shared {
 		sb.WriteString(")")
 	}
 }
@@ -914,8 +977,10 @@ func Script(asserts0 []*Term, preamble string, opts ScriptOpts) string {
 	// global axioms triggered by used function symbols (closed under symbols the axioms themselves mention)
 	var axiomTerms []*Term
 	usedAx := map[string]bool{}
+	round := 0
 	for ch := true; ch; {
 		ch = false
+		round++
 		syms := map[string]bool{}
 		for _, t := range order {
 			if t.Op != "" {
@@ -929,7 +994,11 @@ func Script(asserts0 []*Term, preamble string, opts ScriptOpts) string {
 			if ia, ok := TS.instAxioms[sym]; ok {
 				// instantiate at closed applications found so far
 				needQuant := false
-				for _, t := range order {
+				if ia.Limit > 0 && round > ia.Limit {
+					continue
+				}
+				snapshot := order
+				for _, t := range snapshot {
 					if t.Op != sym || len(t.Args) != len(ia.Vars) {
 						continue
 					}
@@ -1024,8 +1093,10 @@ func Script(asserts0 []*Term, preamble string, opts ScriptOpts) string {
 			sb.WriteString("\n")
 		}
 	}
+	printedDecl := map[string]bool{}
 	for _, name := range TS.declOrder {
-		if usedDecl[name] {
+		if usedDecl[name] && !printedDecl[name] {
+			printedDecl[name] = true
 			sb.WriteString(TS.decls[name])
 			sb.WriteString("\n")
 		}
@@ -1056,7 +1127,7 @@ func Script(asserts0 []*Term, preamble string, opts ScriptOpts) string {
 		for _, n := range names {
 			rf := TS.recFuns[n]
 			sb.WriteString("  ")
-			printTerm(&sb, rf.Body, nil)
+			printLet(&sb, rf.Body, nil)
 			sb.WriteString("\n")
 		}
 		sb.WriteString("))\n")
